@@ -85,9 +85,11 @@ def run_gosym(run, tier, use_cache=True, workers=16):
     bounds = dict(run.get("bounds", {}).get("all", {}))
     bounds.update(run.get("bounds", {}).get(tier, {}))
     bstr = ",".join("%s=%d" % kv for kv in sorted(bounds.items()))
-    timeout_ms = run.get("timeout_ms", {}).get(tier, 60000 if tier == "quick" else 300000)
-    key = hashlib.sha256(json.dumps([tree_hash(), run["module"], run["pkg"], run["harness"], bstr, timeout_ms,
-                                     run.get("loop", 64)]).encode()).hexdigest()[:24]
+    timeout_ms = run.get("timeout_ms", {}).get(tier, 20000 if tier == "quick" else 60000)
+    harness = run["harness"][tier] if isinstance(run["harness"], dict) else run["harness"]
+    path_budget = 180 if tier == "quick" else 900
+    key = hashlib.sha256(json.dumps([tree_hash(), run["module"], run["pkg"], harness, bstr, timeout_ms,
+                                     run.get("loop", 64), path_budget]).encode()).hexdigest()[:24]
     os.makedirs(CACHE, exist_ok=True)
     cpath = os.path.join(CACHE, key + ".json")
     if use_cache and os.path.exists(cpath):
@@ -99,8 +101,9 @@ def run_gosym(run, tier, use_cache=True, workers=16):
                                os.path.join(VERIF, "harness", "zzverif"), os.path.join(REPO, mod["zz"]))
     tmp = cpath + ".tmp%d" % os.getpid()
     cmd = [GOSYM, "-dir", os.path.join(REPO, mod["dir"]), "-pkg", run["pkg"], "-overlay", overlay,
-           "-run", run["harness"], "-out", tmp, "-bounds", bstr, "-timeout-ms", str(timeout_ms),
-           "-workers", str(workers), "-loop", str(run.get("loop", 64)), "-full-models"]
+           "-run", harness, "-out", tmp, "-bounds", bstr, "-timeout-ms", str(timeout_ms),
+           "-workers", str(workers), "-loop", str(run.get("loop", 64)), "-full-models",
+           "-path-budget-s", str(path_budget)]
     t0 = time.time()
     r = sh(cmd, capture_output=True, text=True)
     if not os.path.exists(tmp):
@@ -117,6 +120,36 @@ def run_gosym(run, tier, use_cache=True, workers=16):
             json.dump(out, fh)
     out["reused"] = False
     return out
+
+
+SERVICE_PREFIX = {"./base/keeper": ("x/ecocredit/base/types/v1/tx.pb.go", ""),
+                  "./basket/keeper": ("x/ecocredit/basket/types/v1/tx.pb.go", "Basket"),
+                  "./marketplace/keeper": ("x/ecocredit/marketplace/types/v1/tx.pb.go", "Market")}
+# RPCs that the keeper does not implement (the embedded Unimplemented server rejects them
+# without touching state); everything else in the MsgServer interface needs a harness
+UNIMPLEMENTED = {"CreateUnregisteredProject", "CreateOrUpdateApplication", "UpdateProjectEnrollment", "UpdateProjectFee"}
+
+
+def uncovered_handlers(run, out):
+    """Every method of the service's MsgServer interface (read from /repo's generated code
+    on every run) must have a VerifHarness_Step_<prefix><Method> when the run is the full
+    step set."""
+    if run["pkg"] not in SERVICE_PREFIX:
+        return []
+    h = run["harness"]
+    if isinstance(h, dict) or h != "Step_.*":
+        return []
+    path, prefix = SERVICE_PREFIX[run["pkg"]]
+    try:
+        src = open(os.path.join(REPO, path)).read()
+    except OSError:
+        return ["cannot read " + path]
+    m = re.search(r"type MsgServer interface \{(.*?)\n\}", src, re.S)
+    if not m:
+        return ["MsgServer interface not found in " + path]
+    methods = re.findall(r"^\s*([A-Z]\w*)\(context\.Context", m.group(1), re.M)
+    have = {hh["name"] for hh in out["harnesses"]}
+    return [mm for mm in methods if "VerifHarness_Step_%s%s" % (prefix, mm) not in have and mm not in UNIMPLEMENTED]
 
 
 def load_known():
@@ -140,7 +173,10 @@ def check_property(pid, spec, tier, seed, use_cache=True):
     violations = []   # (harness, obligation, first_sat)
     knowns_hit = {}
     inconclusive = []
+    only = os.environ.get("VERIF_ONLY_PKG")
     for run in spec["runs"]:
+        if only and not re.search(only, run["pkg"]):
+            continue
         out = run_gosym(run, tier, use_cache)
         if out.get("error"):
             inconclusive.append("engine: " + out["error"][:1500])
@@ -151,6 +187,8 @@ def check_property(pid, spec, tier, seed, use_cache=True):
             cov["bounds"][k] = v
         if not out["harnesses"]:
             inconclusive.append("no harness matched %s in %s" % (run["harness"], run["pkg"]))
+        for missing in uncovered_handlers(run, out):
+            inconclusive.append("uncovered handler: %s has no step harness in %s" % (missing, run["pkg"]))
         for h in out["harnesses"]:
             mine = {n: o for n, o in h["obligations"].items()
                     if n.startswith(prefix + " ") or n.startswith(prefix + ":") or prefix == "*"
